@@ -226,13 +226,20 @@ func build386() (string, error) {
 	return out, nil
 }
 
+// inconclusive ends a replay that cannot be carried out here (the driver maps exit code 2 with a
+// "replay:" line to "inconclusive", never to a violation).
+func inconclusive(format string, a ...any) {
+	fmt.Printf("replay: "+format+"\n", a...)
+	os.Exit(2)
+}
+
 func replayOtherArch(raw json.RawMessage) error {
 	if runtime.GOARCH == "386" {
-		return fmt.Errorf("case recorded for another representation")
+		inconclusive("case recorded for the 5x52 representation cannot be replayed by a 386 binary")
 	}
 	bin, err := build386()
 	if err != nil {
-		return err
+		inconclusive("%v", err)
 	}
 	fn := os.Getenv("VERIF_REPLAY")
 	cmd := exec.Command(bin, "-test.run", "^$")
@@ -245,7 +252,8 @@ func replayOtherArch(raw json.RawMessage) error {
 	if i := strings.Index(s, "REPLAY-FAIL"); i >= 0 {
 		return fmt.Errorf("[GOARCH=386] %s", strings.TrimSpace(s[i:]))
 	}
-	return fmt.Errorf("[GOARCH=386] replay could not run: %s", s)
+	inconclusive("the GOARCH=386 binary could not run the case: %s", s)
+	return nil
 }
 
 // TestArch386 (thorough tier, shard 0 only): runs this whole package, quick-tier counts, as a
